@@ -20,9 +20,178 @@ fn encode_all(vals: &[rdest::BValue]) -> Vec<u8> {
     e.encode().clone()
 }
 
+fn frame_bytes(f: &rdest::verif::Frame) -> Vec<u8> {
+    use rdest::verif::{Frame, Serializer};
+    match f {
+        Frame::Handshake(m) => m.data(),
+        Frame::KeepAlive(m) => m.data(),
+        Frame::Choke(m) => m.data(),
+        Frame::Unchoke(m) => m.data(),
+        Frame::Interested(m) => m.data(),
+        Frame::NotInterested(m) => m.data(),
+        Frame::Have(m) => m.data(),
+        Frame::Bitfield(m) => m.data(),
+        Frame::Request(m) => m.data(),
+        Frame::Piece(m) => m.data(),
+        Frame::Cancel(m) => m.data(),
+    }
+}
+
+fn describe_frame(f: &rdest::verif::Frame) -> Value {
+    serde_json::from_str(&rdest::verif::trace::describe(&frame_bytes(f))).unwrap_or(json!({"k": "?"}))
+}
+
+/// C06: feed a byte stream to a real Connection in the given segments and decode to quiescence
+/// after each segment (quiescent = recv_frame still pending after 1 ms of paused virtual time).
+async fn stream_case(case: &Value) -> Value {
+    use tokio::io::AsyncWriteExt;
+    let bytes = unhex(case["bytes"].as_str().unwrap());
+    let cuts: Vec<usize> = case["cuts"].as_array().unwrap().iter().map(|c| c.as_u64().unwrap() as usize).collect();
+    let eof = case["eof"].as_bool().unwrap_or(false);
+    let (ours, theirs) = tokio::io::duplex(1 << 22);
+    let mut remote = Some(theirs);
+    let mut conn = rdest::verif::Connection::new("peer:1".to_string());
+    conn.with_socket(rdest::verif::net::TcpStream::Mem(ours, "peer:1".to_string()));
+    let mut frames = vec![];
+    let mut end: Option<String> = None;
+    let mut per_segment = vec![];
+    let mut at = 0usize;
+    let mut steps: Vec<Option<usize>> = cuts.iter().map(|c| Some(*c)).collect();
+    if eof {
+        steps.push(None);
+    }
+    for step in steps {
+        match step {
+            Some(cut) => {
+                if let Some(r) = remote.as_mut() {
+                    if r.write_all(&bytes[at..cut]).await.is_err() {
+                        end = end.or(Some("harness: write failed".to_string()));
+                    }
+                }
+                at = cut;
+            }
+            None => {
+                remote = None; // peer closes
+            }
+        }
+        if end.is_none() {
+            loop {
+                match tokio::time::timeout(std::time::Duration::from_millis(1), conn.recv_frame()).await {
+                    Ok(Ok(Some(f))) => frames.push(describe_frame(&f)),
+                    Ok(Ok(None)) => {
+                        end = Some("closed".to_string());
+                        break;
+                    }
+                    Ok(Err(e)) => {
+                        end = Some(format!("err:{:?}", e));
+                        break;
+                    }
+                    Err(_) => break,
+                }
+                if frames.len() > 100000 {
+                    end = Some("harness: runaway".to_string());
+                    break;
+                }
+            }
+        }
+        per_segment.push(frames.len());
+    }
+    json!({"frames": frames, "end": end, "buflen": conn.verif_buffer_len(), "per_segment": per_segment})
+}
+
+async fn run_case_async(case: &Value) -> Value {
+    match case["op"].as_str().unwrap_or("") {
+        "stream" => stream_case(case).await,
+        _ => run_case(case),
+    }
+}
+
+fn payload(n: usize, pat: u64) -> Vec<u8> {
+    (0..n).map(|i| ((pat as usize + i * 7) % 256) as u8).collect()
+}
+
+fn head(b: &[u8]) -> String {
+    hex(&b[..b.len().min(96)])
+}
+
+/// C07: build a message through its public constructor, serialize it, parse the bytes back
+/// (alone and followed by trailing bytes) and re-serialize what was parsed.
+fn wire_case(case: &Value) -> Value {
+    use rdest::verif::*;
+    let k = case["k"].as_str().unwrap();
+    let u = |name: &str| case[name].as_u64().unwrap_or(0) as usize;
+    let pay = payload(u("n"), case["pat"].as_u64().unwrap_or(0));
+    let h20 = |name: &str| -> [u8; 20] {
+        let v = unhex(case[name].as_str().unwrap_or("0000000000000000000000000000000000000000"));
+        let mut a = [0u8; 20];
+        a.copy_from_slice(&v);
+        a
+    };
+    let data: Vec<u8> = match k {
+        "KeepAlive" => KeepAlive::new().data(),
+        "Choke" => Choke::new().data(),
+        "Unchoke" => Unchoke::new().data(),
+        "Interested" => Interested::new().data(),
+        "NotInterested" => NotInterested::new().data(),
+        "Have" => Have::new(u("idx")).data(),
+        "Request" => Request::new(u("idx"), u("begin"), u("len")).data(),
+        "Cancel" => Cancel::new(u("idx"), u("begin"), u("len")).data(),
+        "Piece" => Piece::new(u("idx"), u("begin"), pay.clone()).data(),
+        "Bitfield" => {
+            // a Bitfield with arbitrary bytes can only be obtained by parsing; build it from bits
+            let bits: Vec<bool> = pay.iter().flat_map(|b| (0..8).map(move |i| b & (0x80 >> i) != 0)).collect();
+            Bitfield::from_vec(&bits).data()
+        }
+        "Handshake" => Handshake::new(&h20("ih"), &h20("id")).data(),
+        _ => return json!({"error": "kind"}),
+    };
+    let mut out = json!({"len": data.len(), "head": head(&data), "sha": hex(&sha1(&data))});
+    let trail = unhex(case["trail"].as_str().unwrap_or(""));
+    let mut buf = data.clone();
+    buf.extend_from_slice(&trail);
+    let mut crs = std::io::Cursor::new(&buf[..]);
+    out["parse"] = match Frame::parse(&mut crs) {
+        Ok(f) => {
+            let re = frame_bytes(&f);
+            let mut acc = json!({});
+            match &f {
+                Frame::Have(m) => acc = json!({"idx": m.piece_index()}),
+                Frame::Request(m) => acc = json!({"idx": m.piece_index(), "begin": m.block_begin(), "len": m.block_length()}),
+                Frame::Piece(m) => acc = json!({"idx": m.piece_index(), "begin": m.block_begin(), "len": m.block_length(), "block_sha": hex(&sha1(m.block()))}),
+                Frame::Handshake(m) => acc = json!({"id": hex(m.peer_id()), "valid_same": m.validate(&h20("ih"), &Some(h20("id"))).is_ok()}),
+                _ => (),
+            }
+            json!({"ok": true, "pos": crs.position(), "re_len": re.len(), "re_head": head(&re), "re_sha": hex(&sha1(&re)), "acc": acc, "desc": describe_frame(&f)})
+        }
+        Err(e) => json!({"ok": false, "err": format!("{:?}", e), "pos": crs.position()}),
+    };
+    out
+}
+
+fn bits_case(case: &Value) -> Value {
+    use rdest::verif::*;
+    let bits: Vec<bool> = case["bits"].as_array().unwrap().iter().map(|b| b.as_bool().unwrap()).collect();
+    let bf = Bitfield::from_vec(&bits);
+    let data = bf.data();
+    let back = bf.to_vec(bits.len());
+    // and through the wire: parse the serialized message, then unpack
+    let mut crs = std::io::Cursor::new(&data[..]);
+    let wire_back = match Frame::parse(&mut crs) {
+        Ok(Frame::Bitfield(b)) => match (b.validate(bits.len()), b.to_vec(bits.len())) {
+            (Ok(()), Ok(v)) => json!(v),
+            (e1, e2) => json!(format!("{:?} {:?}", e1, e2.err())),
+        },
+        Ok(_) => json!("other frame"),
+        Err(e) => json!(format!("{:?}", e)),
+    };
+    json!({"data": hex(&data), "back": match back { Ok(v) => json!(v), Err(e) => json!(format!("{:?}", e)) }, "wire_back": wire_back})
+}
+
 fn run_case(case: &Value) -> Value {
     let op = case["op"].as_str().unwrap_or("");
     match op {
+        "wire" => wire_case(case),
+        "bits" => bits_case(case),
         "bdecode" => {
             let input = unhex(case["input"].as_str().unwrap());
             match guarded(|| rdest::BDecoder::from_array(&input)) {
@@ -64,6 +233,11 @@ fn run_case(case: &Value) -> Value {
 
 fn main() {
     quiet_panics();
+    let rt = tokio::runtime::Builder::new_current_thread()
+        .enable_all()
+        .start_paused(true)
+        .build()
+        .unwrap();
     let stdin = std::io::stdin();
     let stdout = std::io::stdout();
     let mut out = std::io::BufWriter::new(stdout.lock());
@@ -73,7 +247,10 @@ fn main() {
             continue;
         }
         let case: Value = serde_json::from_str(&line).unwrap();
-        let obs = run_case(&case);
+        let obs = match guarded(|| rt.block_on(run_case_async(&case))) {
+            Ok(v) => v,
+            Err(p) => json!({"panic": p}),
+        };
         writeln!(out, "{}", obs).unwrap();
     }
 }
